@@ -1160,6 +1160,11 @@ class _Tree(_ArithmeticMixin, _Base):
         index = self._search(key)
         child = data[index].child
 
+        # The node key may have to be replaced (if it is the key being
+        # deleted).  Compare now: once the child has changed, a comparison
+        # that raises would skip the unlinking of an emptied bucket.
+        key_is_node_key = index > 0 and compare(key, data[index].key) == 0
+
         removed_first_bucket, value = child._del(key)
 
         # See comment in _set about small trees
@@ -1171,7 +1176,7 @@ class _Tree(_ArithmeticMixin, _Base):
             self._p_changed = True
 
         # fix up the node key, but not for the 0'th one.
-        if index > 0 and child.size and compare(key, data[index].key) == 0:
+        if key_is_node_key and child.size:
             self._p_changed = True
             data[index].key = child.minKey()
 
